@@ -33,6 +33,7 @@ KINDS = {
     "ms": "datetime64[ms]",
     "us": "datetime64[us]",
     "td": "timedelta64[D]",
+    "ns": "datetime64[ns]",
     "obj": "object",
 }
 
@@ -52,7 +53,7 @@ def np_array(kind, toks):
     if kind == "U":
         width = max([len(t) for t in toks if t is not None] + [1])
         return np.array(["" if t is None else t for t in toks], dtype=f"U{width}")
-    if kind in ("D", "s", "ms", "us", "h", "m"):
+    if kind in ("D", "s", "ms", "us", "h", "m", "ns"):
         return np.array(["NaT" if t is None else t for t in toks], dtype=f"datetime64[{kind}]")
     if kind == "td":
         return np.array(["NaT" if t is None else int(t) for t in toks], dtype="timedelta64[D]")
@@ -100,7 +101,8 @@ def cells(a):
     if k == "M":
         unit = np.datetime_data(a.dtype)[0]
         if unit in ("ns", "ps", "fs", "as"):
-            a = a.astype("datetime64[us]")
+            # finer than Python's datetime: ISO strings keep every digit (and sort chronologically for years 1000-9999)
+            return [None if np.isnat(x) else str(np.datetime_as_string(x)) for x in a]
         return [None if x is None else x for x in a.tolist()]
     if k == "m":
         return [None if x is None else x for x in a.astype("timedelta64[us]").tolist()]
@@ -224,6 +226,10 @@ A = {
         "key": [None, "1970-01-01T00:00:00", "2020-02-29T23:59:59.999999"],
     },
     "obj": {"quick": [None, 1, 2, 3], "thorough": [None, 1, 2, 3], "key": [None, 1, 2]},
+    # nanosecond datetimes (what from_pandas produces): values closer than a microsecond / than float64 resolution
+    "ns": {"quick": [None, "2020-02-29T23:59:59.999999001", "2020-02-29T23:59:59.999999002", "1969-12-31T23:59:59.999999999"],
+           "thorough": [None, "2020-02-29T23:59:59.999999001", "2020-02-29T23:59:59.999999002", "1969-12-31T23:59:59.999999999", "2020-02-29T23:59:59.999999"],
+           "key": [None, "2020-02-29T23:59:59.999999001", "2020-02-29T23:59:59.999999002"]},
     # timedelta64 is a subdtype of np.integer (is_integer() is true for it) yet holds NaT
     "td": {"quick": [None, "1", "3", "-2"], "thorough": [None, "1", "3", "-2", "0"], "key": [None, "1", "3"]},
 }
@@ -251,6 +257,8 @@ def order_key(kind):
         return lambda t: [ord(c) for c in t]
     if kind in ("D", "s", "ms", "us"):
         return lambda t: np.datetime64(t).astype("datetime64[us]").astype("int64").item()
+    if kind == "ns":
+        return lambda t: np.datetime64(t, "ns").astype("int64").item()
     if kind == "td":
         return lambda t: int(t)
     raise ValueError(kind)
